@@ -186,3 +186,226 @@ Proof.
   pose proof (compute_reports_all_dirty _ _ _ C l0 Hin Hd) as R. rewrite Hkl in R.
   apply key_mem_In in R. rewrite R in Hn. discriminate.
 Qed.
+
+(* ------------------------------------------------------------------ API programs *)
+Definition noTQ (t : list tev) : Prop := forall e, In e t -> e <> TQ.
+
+Lemma announced_app : forall t1 t2 ow,
+  announced_ok ow (t1 ++ t2) = announced_ok ow t1 && announced_ok (fold_left owed_step t1 ow) t2.
+Proof.
+  induction t1 as [|e t IH]; intros t2 ow; [reflexivity|]. cbn [app]. destruct e as [ks|ks|]; cbn [announced_ok fold_left owed_step].
+  - apply IH.
+  - apply IH.
+  - destruct ow; [apply IH | reflexivity].
+Qed.
+Lemma announced_noTQ : forall t ow, noTQ t -> announced_ok ow t = true.
+Proof.
+  induction t as [|e t IH]; intros ow H; [reflexivity|].
+  assert (Ht : noTQ t) by (intros x Hx; apply H; right; exact Hx).
+  destruct e as [ks|ks|]; cbn [announced_ok]; [apply IH; exact Ht | apply IH; exact Ht |].
+  exfalso. apply (H TQ); [left; reflexivity | reflexivity].
+Qed.
+
+Lemma trace_msgs_ext : forall b s pend tr s' pend' tr',
+  fold_left trace_msg b (s, pend, tr) = (s', pend', tr') -> exists new, tr' = tr ++ new /\ noTQ new.
+Proof.
+  induction b as [|m t IH]; intros s pend tr s' pend' tr' H; cbn [fold_left] in H.
+  - inversion H; subst. exists []. split; [rewrite app_nil_r; reflexivity | intros e []].
+  - destruct m as [o|]; cbn [trace_msg] in H.
+    + destruct (exec_op o s) as [s1 ms]. apply IH in H as [new [E N]]. exists (TW (changed_keys s s1) :: new).
+      split; [rewrite E, <- app_assoc; reflexivity | intros e [He|He]; [subst; discriminate | apply N; exact He]].
+    + destruct (compute s) as [s1 rep]. apply IH in H as [new [E N]]. exists (TE rep :: new).
+      split; [rewrite E, <- app_assoc; reflexivity | intros e [He|He]; [subst; discriminate | apply N; exact He]].
+Qed.
+Lemma trace_batches_ext : forall bs s tr s' tr',
+  trace_batches (s, tr) bs = (s', tr') -> exists new, tr' = tr ++ new /\ noTQ new.
+Proof.
+  unfold trace_batches. induction bs as [|b t IH]; intros s tr s' tr' H; cbn [fold_left] in H.
+  - inversion H; subst. exists []. split; [rewrite app_nil_r; reflexivity | intros e []].
+  - destruct (trace_batch (s, tr) b) as [s1 tr1] eqn:E. apply IH in H as [n2 [E2 N2]].
+    unfold trace_batch in E. destruct (fold_left trace_msg b (s, [], tr)) as [[s0 p0] t0] eqn:F. inversion E; subst.
+    apply trace_msgs_ext in F as [n1 [E1 N1]]. subst. exists (n1 ++ n2).
+    split; [rewrite app_assoc; reflexivity | intros e He; apply in_app_or in He as [He|He]; [apply N1 | apply N2]; exact He].
+Qed.
+Lemma trace_batches_state : forall bs s tr, fst (trace_batches (s, tr) bs) = fst (trace_batches (s, []) bs).
+Proof.
+  unfold trace_batches. induction bs as [|b t IH]; intros s tr; cbn [fold_left]; [reflexivity|].
+  destruct (trace_batch (s, tr) b) as [s1 t1] eqn:E1. destruct (trace_batch (s, []) b) as [s2 t2] eqn:E2.
+  pose proof (trace_batch_state s tr b) as A. pose proof (trace_batch_state s [] b) as B.
+  rewrite E1 in A. rewrite E2 in B. cbn [fst] in A, B. assert (s1 = s2) by congruence. subst.
+  rewrite IH. symmetry. apply IH.
+Qed.
+Lemma trace_api_state : forall a s tr, fst (trace_api (s, tr) a) = fst (trace_api (s, []) a).
+Proof.
+  intros a s tr. unfold trace_api. pose proof (trace_batches_state (batches_of a) s tr) as A.
+  destruct (trace_batches (s, tr) (batches_of a)) as [s1 t1]. destruct (trace_batches (s, []) (batches_of a)) as [s2 t2].
+  cbn [fst] in *. exact A.
+Qed.
+
+(* a call is well scheduled when no mutation of a stream is committed after the stream-end recompute *)
+Definition api_ok (a : api) : bool := negb (has_late a).
+Fixpoint prog_ok (s : state) (p : list api) : Prop :=
+  match p with
+  | [] => True
+  | a :: t => api_ok a = true /\ batches_covered s (batches_of a) /\ prog_ok (fst (trace_api (s, []) a)) t
+  end.
+
+Lemma select_none : forall {A} (early : list bool) (os : list A), existsb negb early = false -> select (map negb early) os = [].
+Proof.
+  induction early as [|b m IH]; intros os H; [destruct os; reflexivity|].
+  cbn [existsb] in H. apply orb_false_iff in H as [Hb Hm]. destruct b; [|discriminate].
+  destruct os as [|x l]; [reflexivity|]. cbn [map negb select]. apply IH; exact Hm.
+Qed.
+Lemma promising_ends_with_compute : forall a, promises a = true -> api_ok a = true ->
+  exists bs, batches_of a = bs ++ [[MCompute]].
+Proof.
+  intros a Hp Ho. destruct a as [t|o|o| |os early]; try discriminate.
+  - exists [[MOp o]]. reflexivity.
+  - exists []. reflexivity.
+  - unfold api_ok, has_late in Ho. apply negb_true_iff in Ho.
+    exists (map (fun o => [MOp o]) (select early os)). cbn [batches_of]. rewrite (select_none early os Ho). reflexivity.
+Qed.
+Lemma batches_covered_app : forall b1 b2 s, batches_covered s (b1 ++ b2) -> batches_covered s b1.
+Proof.
+  induction b1 as [|b t IH]; intros b2 s H; [exact I|]. cbn [app batches_covered] in *.
+  destruct H as [A B]. split; [exact A | eapply IH; exact B].
+Qed.
+
+Theorem seq_announced : forall p s tr s' tr',
+  announced_ok [] tr = true -> OI s [] (owed tr) -> prog_ok s p ->
+  fold_left trace_api p (s, tr) = (s', tr') -> announced_ok [] tr' = true.
+Proof.
+  induction p as [|a t IH]; intros s tr s' tr' Ha Hi Hp H; cbn [fold_left] in H.
+  - inversion H; subst; exact Ha.
+  - destruct Hp as [Hok [Hcov Hrest]].
+    destruct (trace_api (s, tr) a) as [s1 tr1] eqn:E.
+    assert (Hs1 : s1 = fst (trace_api (s, []) a)).
+    { pose proof (trace_api_state a s tr) as S. rewrite E in S. exact S. }
+    rewrite <- Hs1 in Hrest.
+    unfold trace_api in E. destruct (trace_batches (s, tr) (batches_of a)) as [s2 tr2] eqn:B.
+    destruct (trace_batches_ext _ _ _ _ _ B) as [new [En Nn]].
+    destruct (promises a) eqn:Pr; inversion E; subst s2 tr1; clear E.
+    + destruct (promising_ends_with_compute a Pr Hok) as [bs Eb]. rewrite Eb in B, Hcov.
+      pose proof (quiescent_all_reported _ _ _ _ _ Hi (batches_covered_app _ _ _ Hcov) B) as Q.
+      eapply IH; [| |exact Hrest|exact H].
+      * rewrite announced_app. fold (owed tr2). rewrite Q. cbn [announced_ok]. rewrite andb_true_r.
+        rewrite En, announced_app, Ha. cbn [andb]. apply announced_noTQ; exact Nn.
+      * rewrite owed_app, Q. cbn [fold_left owed_step]. intros k [].
+    + eapply IH; [| |exact Hrest|exact H].
+      * rewrite En, announced_app, Ha. cbn [andb]. apply announced_noTQ; exact Nn.
+      * eapply trace_batches_OI; eauto.
+Qed.
+
+(* known_C18 = [] gives the premises *)
+Lemma unc_msg_false : forall b s u, snd (fold_left unc_msg b (s, u)) = false -> u = false /\ batch_covered s b.
+Proof.
+  induction b as [|m t IH]; intros s u H; cbn [fold_left] in H; [split; [exact H | exact I]|].
+  destruct m as [o|]; cbn [unc_msg] in H.
+  - destruct (exec_op o s) as [s1 ms] eqn:E. apply IH in H as [Hu Ht].
+    apply orb_false_iff in Hu as [Hu Hn]. cbn [batch_covered msg_covered msg_state]. rewrite E. cbn [fst snd].
+    split; [exact Hu|]. split; [|exact Ht]. destruct (uncovered s s1 ms); [reflexivity | discriminate].
+  - apply IH in H as [Hu Ht]. split; [exact Hu | split; [exact I | exact Ht]].
+Qed.
+Lemma unc_batches_false : forall bs s u s' , fold_left unc_batch bs (s, u) = (s', false) ->
+  u = false /\ batches_covered s bs /\ s' = fst (trace_batches (s, []) bs).
+Proof.
+  induction bs as [|b t IH]; intros s u s' H; cbn [fold_left] in H.
+  - inversion H; subst. repeat split; reflexivity.
+  - cbn [unc_batch] in H. apply IH in H as [Hu [Ht Hs]]. apply unc_msg_false in Hu as [Hu Hb].
+    rewrite trace_batch_state in Ht. split; [exact Hu|]. split; [split; [exact Hb | exact Ht]|].
+    rewrite Hs. unfold trace_batches. cbn [fold_left].
+    destruct (trace_batch (s, []) b) as [s1 t1] eqn:E. cbn [fst].
+    change (fold_left trace_batch t (s1, [])) with (trace_batches (s1, []) t).
+    change (fold_left trace_batch t (s1, t1)) with (trace_batches (s1, t1) t).
+    symmetry. apply trace_batches_state.
+Qed.
+Lemma api_classes_nil : forall p s cl, snd (fold_left api_classes p (s, cl)) = [] -> cl = [] /\ prog_ok s p.
+Proof.
+  induction p as [|a t IH]; intros s cl H; cbn [fold_left] in H; [split; [exact H | exact I]|].
+  cbn [api_classes] in H. destruct (fold_left unc_batch (batches_of a) (s, false)) as [s1 unc] eqn:U.
+  apply IH in H as [Hcl Ht]. apply app_eq_nil in Hcl as [Hcl Hc]. apply app_eq_nil in Hc as [Hl Hu].
+  destruct unc; [discriminate|]. apply unc_batches_false in U as [_ [Hcov Hs]].
+  split; [exact Hcl|]. split; [|split; [exact Hcov|]].
+  - unfold api_ok. destruct (has_late a); [discriminate | reflexivity].
+  - assert (E : fst (trace_api (s, []) a) = s1).
+    { unfold trace_api. destruct (trace_batches (s, []) (batches_of a)) as [x y]. cbn [fst] in *. symmetry; exact Hs. }
+    rewrite E. exact Ht.
+Qed.
+Lemma zdedup18_nil : forall l, zdedup18 l = [] -> l = [].
+Proof.
+  induction l as [|x t IH]; [reflexivity|]. cbn [zdedup18].
+  destruct (existsb (Z.eqb x) t) eqn:E; [|discriminate]. intro H. apply IH in H. subst t. discriminate.
+Qed.
+
+Theorem seq_holds : forall t0 prog, known_C18 (CSeq t0 prog) = [] ->
+  announced_ok [] (run_trace (CSeq t0 prog)) = true.
+Proof.
+  intros t0 prog H. unfold known_C18 in H. apply zdedup18_nil in H. apply api_classes_nil in H as [_ Hp].
+  unfold run_trace, trace_prog.
+  destruct (fold_left trace_api prog (init t0, [])) as [s' tr'] eqn:E. cbn [snd].
+  eapply seq_announced; [| |exact Hp|exact E]; [reflexivity | intros k []].
+Qed.
+
+(* ------------------------------------------------------------------ encode / decode round trip *)
+Lemma dec_keys_enc : forall ks rest, dec_keys (length ks) (flat_map enc_key ks ++ rest) = Some (ks, rest).
+Proof.
+  induction ks as [|k ks IH]; intro rest; [reflexivity|]. destruct k as [[r e] d].
+  cbn [length flat_map enc_key app dec_keys]. rewrite <- ?app_assoc. cbn [app dec_keys]. rewrite IH.
+  unfold zn. rewrite !N2Z.id. reflexivity.
+Qed.
+Lemma dec_trace_enc : forall tr fuel, (length tr <= fuel)%nat -> dec_trace fuel (enc_trace tr) = Some tr.
+Proof.
+  unfold enc_trace. induction tr as [|e t IH]; intros fuel Hf.
+  - destruct fuel; reflexivity.
+  - destruct fuel as [|f]; [cbn in Hf; lia|]. cbn [length] in Hf. assert (Hf' : (length t <= f)%nat) by lia.
+    cbn [flat_map]. destruct e as [ks|ks|]; cbn [enc_tev app dec_trace].
+    + rewrite Nat2Z.id, dec_keys_enc, (IH f Hf'). reflexivity.
+    + rewrite Nat2Z.id, dec_keys_enc, (IH f Hf'). reflexivity.
+    + rewrite (IH f Hf'). reflexivity.
+Qed.
+Lemma enc_trace_length : forall tr, (length tr <= length (enc_trace tr))%nat.
+Proof.
+  unfold enc_trace. induction tr as [|e t IH]; [cbn; lia|]. cbn [flat_map length]. rewrite app_length.
+  assert (1 <= length (enc_tev e))%nat by (destruct e; cbn; lia). lia.
+Qed.
+
+Theorem seq_holds_spec : forall t0 prog, known_C18 (CSeq t0 prog) = [] ->
+  spec_C18 (CSeq t0 prog) (run_C18 (CSeq t0 prog)) = true.
+Proof.
+  intros t0 prog H. unfold spec_C18, run_C18.
+  rewrite dec_trace_enc; [apply seq_holds; exact H | apply enc_trace_length].
+Qed.
+
+(* concurrent callers: whatever batches the writer forms out of their writes and recompute
+   requests, once a recompute has been processed after the last write nothing is owed *)
+Theorem any_batching_quiescent : forall t0 bs s' tr',
+  batches_covered (init t0) bs -> trace_batches (init t0, []) (bs ++ [[MCompute]]) = (s', tr') -> owed tr' = [].
+Proof. intros t0 bs s' tr' Hc H. eapply quiescent_all_reported; [|exact Hc|exact H]. intros k []. Qed.
+
+(* ------------------------------------------------------------------ refutation: the stream schedule *)
+(* one streamed creation; the stream-end recompute is processed first: the change is committed,
+   its key stays dirty, no event names it, and nothing requests another recompute *)
+Definition w_stream : c18case :=
+  CSeq 1000 [ATick 1010; AStream [LCreate 1 (Some 1%N) 1 1] [false]].
+Definition w_stream_ok : c18case :=
+  CSeq 1000 [ATick 1010; AStream [LCreate 1 (Some 1%N) 1 1] [true]].
+Lemma stream_refuted :
+  spec_C18 w_stream (run_C18 w_stream) = false /\ known_C18 w_stream = [1] /\
+  run_trace w_stream = [TW []; TE []; TW [(1%N, 1%N, 0)]; TQ] /\
+  map l_dirty (log (fst (trace_prog 1000 [ATick 1010; AStream [LCreate 1 (Some 1%N) 1 1] [false]]))) = [true] /\
+  spec_C18 w_stream_ok (run_C18 w_stream_ok) = true /\ known_C18 w_stream_ok = [].
+Proof. vm_compute. repeat split; reflexivity. Qed.
+
+(* a sequential mix over two days and two rooms: nothing known, every change announced *)
+Definition w_seq : c18case :=
+  CSeq 1000 [ATick 1010; ACall (LCreate 1 (Some 1%N) 1 1); AIngest (SNodes 2 [sn 2 2 5000 2; sn 3 1 6000 3]); ACompute;
+             ATick (D + 5); ACall (LUpdate 1 1 (Some 2%N) 4); ACall (LDelNode 1 1 5);
+             AStream [LCreate 4 (Some 1%N) 2 6; LCreate 5 (Some 2%N) 2 7] [true; true]].
+Lemma seq_nonvacuous :
+  known_C18 w_seq = [] /\ spec_C18 w_seq (run_C18 w_seq) = true /\
+  length (filter (fun e => match e with TE (_ :: _) => true | _ => false end) (run_trace w_seq)) = 5%nat.
+Proof. vm_compute. repeat split; reflexivity. Qed.
+
+Definition C18_full : Prop := forall c, spec_C18 c (run_C18 c) = true.
+Lemma full_refuted : ~ C18_full.
+Proof. intro H. specialize (H w_stream). destruct stream_refuted as [E _]. rewrite E in H. discriminate. Qed.
